@@ -859,7 +859,8 @@ pub fn run(ctx: &Ctx) -> Report {
     let lattice: Vec<u8> = (0..64u32).map(|v| ((v * 255 + 31) / 63) as u8).collect();
     let boundary: Vec<u8> = vec![0, 1, 0x7f, 0x80, 0x81, 0xfe, 0xff];
     let mut cases = vec![Case::Tables];
-    if ctx.tier_thorough && !miri {
+    if !miri {
+        // all 2^24 values in both tiers (a fraction of a second natively)
         for r in 0..=255u8 {
             cases.push(Case::R888(r, 0));
         }
@@ -911,10 +912,10 @@ pub fn run(ctx: &Ctx) -> Report {
     rep.note("Color<-RGB oracle: White required when channel mean, Rec.601 luma and raw-sum/max-sum (channels normalised by their maxima) are all > 1/2, Black when all < 1/2, either otherwise; black and white fixed points exact");
     rep.note("OctColor<-Rgb888 oracle: exact palette entry -> that colour; otherwise any palette colour at minimal squared distance (ties accepted)");
     rep.note("there is no From<Rgb565>/From<Rgb555> for TriColor or OctColor and no From<TriColor> for RawU2 / From<OctColor> for RawU4 in the pinned tree; only existing impls are exercised");
-    if ctx.tier_thorough && !miri {
-        rep.note("thorough: all 2^24 Rgb888 values, all 65536 Rgb565 and all 32768 Rgb555 values");
+    if !miri {
+        rep.note("all 2^24 Rgb888 values, all 65536 Rgb565 and all 32768 Rgb555 values (both tiers)");
     } else {
-        rep.note("quick: Rgb888 on a 64^3 lattice (levels round(v*255/63)) plus {0,1,0x7f,0x80,0x81,0xfe,0xff}^3; all Rgb565 and Rgb555 values");
+        rep.note("miri: Rgb888 on {0,1,0x7f,0x80,0x81,0xfe,0xff}^3; every 8th red level of Rgb565 and Rgb555");
     }
     rep
 }
